@@ -17,6 +17,9 @@ CLAIMS = {
  'C02': ('pzv-scheme', 'model-based testing of random straight-line programs (plaintext model of every ciphertext column as exact torus values)',
          'Random programs (1..12 steps) of add/sub/negate/copy/rotate/(X^k-1)/shift/normalise incl. all in-place forms over a register file of GLWE ciphertexts with independent sizes, a rank-0 operand and a cross-radix register; every column of the destination is compared after every step with the operation applied to the operands\' exact values (tolerance: exactly what truncated limbs can carry / one unit for rounding shifts), plus the phase under a generated key.',
          'Trusted: the dyadic value model. Right shifts are modelled on the unreduced value of the limb vector, as the library defines them.', 'DESIGN.md section 6 C02'),
+ 'C17': ('pzv-hal', 'AddressSanitizer-instrumented property-based execution of the operation registry (exact-size heap blocks) + guard-margin canaries',
+         'Every registry operation on four backends (N from 1, odd limb counts, multi-column, size < capacity, roomy and exact-size scratch) plus histories of resize / reallocate / corrupted deserialisation followed by use run in an AddressSanitizer build in which each operand and scratch window is its own exact-size heap block; any sanitizer report, guard-region damage or panic is a violation (death callback writes the replay).',
+         'ASan instruments Rust code and intrinsics of harness and poulpy crates, not std and not global assembly (covered by patterned guard margins); uninitialised reads are only approximated by C11/C12; scheme-level layers are exercised through their own properties in the checked profile.', 'DESIGN.md section 6 C17'),
  'C18': ('pzv-serde', 'fault-injection property-based testing over every ReaderFrom implementation (truncation at every byte, header-field dictionary, bit flips)',
          'For 26 hal/core layouts: round trip (object and bytes) into receivers of equal/larger shape; every truncation point of small objects exhaustively; header fields replaced from a boundary dictionary incl. overflowing products; after every read (Ok or Err) the receiver invariant is checked through public fields, the receiver is re-serialised and every coefficient read; a panic, arithmetic overflow, inconsistent receiver or changed dimensions on Err is a violation.',
          'The four binary-FHE key wrappers are covered by the bin-fhe binary; wrapper scalars committed before delegation are observed, not judged.', 'DESIGN.md section 6 C18'),
